@@ -168,6 +168,7 @@ class Stream:
         shrink=True,
         machine=None,
         steps=None,
+        reduce=None,
     ):
         self.name = name
         self.body = body
@@ -175,6 +176,7 @@ class Stream:
         self.cases = cases
         self.n = n or {"quick": 200, "thorough": 2000}
         self.shrink = shrink
+        self.reduce = reduce  # case -> iterable of smaller candidate cases (optional)
         self.machine = machine  # factory(stats, record) -> RuleBasedStateMachine subclass
         self.steps = steps or {"quick": 20, "thorough": 40}
 
@@ -249,8 +251,34 @@ def run_stream(stream, tier, seed, shard, nshards, scale=1.0):
     try:
         test()
     except Fail as f:
-        return stats, _failrec(stream, last.get("fail", f), last.get("case"))
+        f = last.get("fail", f)
+        case = last.get("case")
+        if stream.reduce is not None and stream.shrink:
+            case, f = _reduce(stream, case, f)
+        return stats, _failrec(stream, f, case)
     return stats, None
+
+
+def _reduce(stream, case, fail, budget=400):
+    """Greedy structural minimisation after Hypothesis' own shrinking: keep a smaller
+    candidate whenever it still fails with the same signature."""
+    case = jclean(case)
+    progress = True
+    while progress and budget > 0:
+        progress = False
+        for cand in stream.reduce(case):
+            budget -= 1
+            if budget <= 0:
+                break
+            try:
+                stream.body(cand, Stats())
+            except Fail as f2:
+                if f2.sig == fail.sig:
+                    case, fail, progress = jclean(cand), f2, True
+                    break
+            except Exception:
+                continue
+    return case, fail
 
 
 def _failrec(stream, f, case):
